@@ -50,6 +50,10 @@ class _Return(Exception):
         self.value = value
 
 
+class _Break(Exception):
+    pass
+
+
 class _Raised(Exception):
     def __init__(self, exc, node):
         self.exc = exc
@@ -177,6 +181,13 @@ class Exec:
         except _Raised as r:
             self.results.append((fr, "raise", (r.exc, r.node)))
             return []
+        except _Break:
+            # `break` ends the innermost `while` under contract: the frame leaves the loop as it is (havoc'd state +
+            # invariant + the path through the body); only plain while loops collect such frames
+            if getattr(self, "breaks", None) is None:
+                raise Unsupported("break outside a plain while loop")
+            self.breaks.append(fr)
+            return []
 
     def _run_stmt(self, st, fr):
         if isinstance(st, ast.Expr):
@@ -230,11 +241,17 @@ class Exec:
             c = self.truth(self.eval(st.test, fr), fr)
             return self.branch(c, fr, lambda f: self.run_block(st.body, [f]), lambda f: self.run_block(st.orelse, [f]))
         if isinstance(st, ast.For):
-            return self.run_for(st, fr)
+            saved, self.breaks = getattr(self, "breaks", None), None  # a `break` inside a for loop is outside the subset
+            try:
+                return self.run_for(st, fr)
+            finally:
+                self.breaks = saved
         if isinstance(st, ast.While):
             return self.run_while(st, fr)
         if isinstance(st, ast.Pass):
             return [fr]
+        if isinstance(st, ast.Break):
+            raise _Break()
         if isinstance(st, ast.Try):
             return self.run_try(st, fr)
         if isinstance(st, (ast.Import, ast.ImportFrom)):
@@ -437,7 +454,15 @@ class Exec:
         info = _loop_state(st.body, set())
         modified = sorted(info["assigned"] | info["lists"])
         if info["dict_writes"]:
-            return self.run_while_counted(st, fr, ordinal, inv, info)
+            saved, self.breaks = getattr(self, "breaks", None), None
+            try:
+                return self.run_while_counted(st, fr, ordinal, inv, info)
+            finally:
+                self.breaks = saved
+        # sets grown in place (`seen.add(x)`) are loop-carried state as well
+        grown = sorted({n.func.value.id for s_ in st.body for n in ast.walk(s_) if isinstance(n, ast.Call) and isinstance(n.func, ast.Attribute)
+                        and n.func.attr == "add" and isinstance(n.func.value, ast.Name) and isinstance(fr.env.get(n.func.value.id), SetVal)})
+        modified = sorted(set(modified) | set(grown))
         self.oblige(f"inv-init:loop{ordinal}", fr, self.eval_spec(inv, fr), st)
         env0 = dict(fr.env)
         for name in modified:
@@ -446,13 +471,20 @@ class Exec:
         body = fr.clone()
         g = self.truth(self.eval(st.test, body), body)
         self.assume(body, zbool(g))
+        broken = []
         if self.pv.feasible(body.pc):
-            outs = self.run_block(st.body, [body])
+            saved, self.breaks = getattr(self, "breaks", None), []
+            try:
+                outs = self.run_block(st.body, [body])
+            finally:
+                broken, self.breaks = self.breaks, saved
             for k, f in enumerate(outs):
                 self.oblige(f"inv-preserved:loop{ordinal}#{k}", f, self.eval_spec(inv, f), st)
         g2 = self.truth(self.eval(st.test, fr), fr)
+        if g2 is True or (is_z3(g2) and z3.is_true(z3.simplify(zbool(g2)))):
+            return broken  # `while True`: the loop is only left through `break`
         self.assume(fr, z3.Not(zbool(g2)))
-        return [fr]
+        return [fr] + broken
 
     def run_while_counted(self, st, fr, ordinal, inv, info):
         """A while loop that writes a dict (a graph layer built level by level).  The loop is cut like a for loop over
@@ -561,6 +593,11 @@ class Exec:
         return [fr]
 
     def havoc_like(self, old, name, fr):
+        hook = getattr(self.spec, "havoc", None)
+        if hook is not None:
+            r = hook(self, fr, name, old)
+            if r is not NotImplemented:
+                return r
         if isinstance(old, Ref) and old.kind == "list":
             proto = fr.heap.get(old.oid)
             fr.heap[old.oid] = self.havoc_seq(proto, name)
@@ -1397,6 +1434,11 @@ class Exec:
             if sup is None:
                 raise Unsupported("super() without a model")
             return sup
+        if isinstance(e.func, ast.Attribute) and e.func.attr == "add" and isinstance(e.func.value, ast.Name) and isinstance(fr.env.get(e.func.value.id), SetVal) and len(e.args) == 1 and not kwargs:
+            # `s.add(x)` on a set held in a local: the local is rebound to s | {x} (sets are not aliased in the subset, A1)
+            old, x = fr.env[e.func.value.id], self.eval(e.args[0], fr)
+            fr.env[e.func.value.id] = SetVal(lambda y, old=old, x=x: _or([old.has(y), self.equal(y, x)]), None if old.elems is None else list(old.elems) + [x])
+            return None
         f = self.eval(e.func, fr)
         args = [self.eval(a, fr) for a in e.args]
         return self.call(f, args, kwargs, fr, e)
